@@ -787,3 +787,5 @@ def _run(world: World, plan):
     return common.finish(world, nontrivial, sig)
 
 INFO['rule'] += " Round-5 additions: the uploader's file connection is under way when the stop lands and arrives with its ticket afterwards (late_f; must not be kept); the downloader of a user-aborted upload is blocked and unblocked inside the window (block_flap)."
+
+INFO['rule'] += ' Round-6 additions: a connection the peer pierces after the stop (late answer to the ConnectToPeer of the negotiation that was cut) must be turned away within 10 s, not adopted.'
